@@ -11,6 +11,7 @@ import (
 	"sync"
 
 	"github.com/gdamore/tcell/v2"
+	"github.com/gdamore/tcell/v2/terminfo"
 	colorful "github.com/lucasb-eyer/go-colorful"
 	"verif/harness/h"
 )
@@ -34,6 +35,8 @@ import (
 //                             256 greys (decision boundaries between close members, where a scan that stops early or
 //                             compares with a tolerance goes wrong)
 //                             palspec = xN (PaletteColor(0..N-1), what tscreen.go builds) or a comma list of colour values
+//   within <entry>            the tables are compared with a snapshot after Init of / after drawing on / after Fini of a terminfo
+//                             screen of that entry: "same same same" (class table-changed-by-screen)
 //   cssref <name> <value> / xtermref <i> <value>   consistency of the Go copies of the references with Spec/Color.lean
 //
 // Oracle (from the property text): the xterm formula, the CSS table below, the round-trip laws, membership and
@@ -467,6 +470,74 @@ func colorExec(line string) h.Result {
 		res.Findings = append(res.Findings, h.Finding{Class: class, Msg: fmt.Sprintf(format, a...)})
 	}
 	switch f[1] {
+	case "within":
+		// the colour tables are package-level state: a screen being alive (of whatever colour count) must not change what
+		// they say.  Snapshot ColorValues / ColorNames, Init a terminfo screen of this entry over a fake tty, compare, do
+		// what screens do with the tables (draw with fitted colours), compare, Fini, compare.
+		if len(f) != 3 {
+			return bad()
+		}
+		ti := terminfo.VerifEntries()[f[2]]
+		if ti == nil {
+			return h.Result{Obs: "same same same", Tags: []string{"within:no-such-entry"}}
+		}
+		vals := map[tcell.Color]int32{}
+		for k, v := range tcell.ColorValues {
+			vals[k] = v
+		}
+		names := map[string]tcell.Color{}
+		for k, v := range tcell.ColorNames {
+			names[k] = v
+		}
+		cmp := func(when string) string {
+			ok := len(vals) == len(tcell.ColorValues) && len(names) == len(tcell.ColorNames)
+			var ks []uint64
+			for k := range vals {
+				ks = append(ks, uint64(k))
+			}
+			sort.Slice(ks, func(i, j int) bool { return ks[i] < ks[j] })
+			for _, k := range ks {
+				c := tcell.Color(k)
+				if v, in := tcell.ColorValues[c]; !in || v != vals[c] {
+					if ok {
+						add("table-changed-by-screen", "%s a %s screen (%d colours): ColorValues[palette %d] = %06x, it was %06x before the screen existed", when, f[2], ti.Colors, k&0xffffffff, uint32(v), uint32(vals[c]))
+					}
+					ok = false
+				}
+			}
+			for n, c := range names {
+				if tcell.ColorNames[n] != c {
+					if ok {
+						add("table-changed-by-screen", "%s a %s screen: ColorNames[%q] changed", when, f[2], n)
+					}
+					ok = false
+				}
+			}
+			if !ok && len(res.Findings) == 0 {
+				add("table-changed-by-screen", "%s a %s screen: the colour tables changed size", when, f[2])
+			}
+			if ok {
+				return "same"
+			}
+			return "changed"
+		}
+		tic := *ti
+		tty := NewFakeTty(20, 5)
+		scr, err := tcell.NewTerminfoScreenFromTtyTerminfo(tty, &tic)
+		if err != nil || scr.Init() != nil {
+			return h.Result{Obs: "same same same", Tags: []string{"within:init-failed"}}
+		}
+		a := cmp("after Init of")
+		for i, c := range []tcell.Color{tcell.ColorRed, tcell.NewRGBColor(18, 52, 86), tcell.PaletteColor(100), tcell.ColorRebeccaPurple, tcell.PaletteColor(80)} {
+			scr.SetContent(i, 0, 'x', nil, tcell.StyleDefault.Foreground(c).Background(tcell.PaletteColor(17+i)))
+		}
+		scr.Show()
+		scr.Sync()
+		b := cmp("after drawing on")
+		scr.Fini()
+		res.Obs = a + " " + b + " " + cmp("after Fini of")
+		res.Tags = append(res.Tags, fmt.Sprintf("within:%d-colours", ti.Colors))
+		return res
 	case "conv":
 		if len(f) != 3 {
 			return bad()
@@ -815,6 +886,32 @@ func colorGen(g *h.Gen) {
 	}
 	for i := 0; i < 256; i++ {
 		g.Emit("color xtermref %d %d", i, xtermRef(i))
+	}
+	// ---- the tables while a screen is alive: one entry per colour count of the database + entries rotating with the seed
+	{
+		byColors := map[int]string{}
+		var all []string
+		for _, n := range primaryNames() {
+			ti := terminfo.VerifEntries()[n]
+			if ti == nil || strings.Contains(ti.Bell+ti.Clear+ti.EnterCA+ti.ExitCA+ti.AttrOff+ti.EnterKeypad, "$<") {
+				continue // padding in the Init strings means real sleeps
+			}
+			all = append(all, n)
+			if _, in := byColors[ti.Colors]; !in {
+				byColors[ti.Colors] = n
+			}
+		}
+		for _, n := range []string{"xterm-88color", "rxvt-88color", "xterm-256color", "xterm-16color", "xterm", "linux", "rxvt-unicode-256color", "xterm-direct"} {
+			if terminfo.VerifEntries()[n] != nil {
+				g.Emit("color within %s", n)
+			}
+		}
+		for _, n := range byColors {
+			g.Emit("color within %s", n)
+		}
+		for k := g.N(6, len(all)); k > 0 && len(all) > 0; k-- {
+			g.Emit("color within %s", all[(k+int(R.Intn(len(all))))%len(all)])
+		}
 	}
 	// ---- palette indices: all of 0..255 + outside
 	for i := 0; i < 256; i++ {
